@@ -158,3 +158,46 @@ func SEC1Extras() [][]byte {
 	}
 	return out
 }
+
+// SmallMulOverflowZ: projective scalings Z for which a value the group formulas multiply by a small curve constant
+// (b3 = 21; also 3 and 7) sits, in its STORED form m, right at a wrap of c*m past a multiple of 2^256:
+// m = floor(k*2^256/c) + {-1, 0, 1} for every k = 1 .. c-1. A multiply-by-constant written by hand (shift-and-add,
+// fold the overflow back with 2^256 = 2^32 + 977) is only wrong when the top carry it forgets actually occurs.
+// The formulas multiply Z1*Z2 (addition), Z^2 (doubling) and (x1 + x2)*Z1*Z2 (the cross term) by b3, so for each target
+// stored value three scalings are produced: Z itself, a square root of it, and it divided by (x1 + x2).
+func SmallMulOverflowZ(x1, x2 *big.Int) []Val {
+	R := new(big.Int).Lsh(big.NewInt(1), 256)
+	Rinv := new(big.Int).ModInverse(R, ref.P)
+	sum := ref.ModP(new(big.Int).Add(x1, x2))
+	var out []Val
+	seen := map[string]bool{}
+	add := func(l string, z *big.Int) {
+		if z.Sign() == 0 || seen[z.String()] {
+			return
+		}
+		seen[z.String()] = true
+		out = append(out, Val{l, z})
+	}
+	for _, c := range []int64{3, 7, 21} {
+		for k := int64(1); k < c; k++ {
+			base := new(big.Int).Mul(big.NewInt(k), R)
+			base.Div(base, big.NewInt(c))
+			for d := int64(-1); d <= 1; d++ {
+				m := new(big.Int).Add(base, big.NewInt(d))
+				if m.Sign() <= 0 || m.Cmp(ref.P) >= 0 {
+					continue
+				}
+				T := ref.ModP(new(big.Int).Mul(m, Rinv))
+				l := fmt.Sprintf("stored value floor(%d*2^256/%d)%+d", k, c, d)
+				add("Z: "+l, T)
+				if r, ok := ref.FpSqrt(T); ok {
+					add("Z^2: "+l, r)
+				}
+				if sum.Sign() != 0 {
+					add("(x1+x2)*Z: "+l, ref.ModP(new(big.Int).Mul(T, new(big.Int).ModInverse(sum, ref.P))))
+				}
+			}
+		}
+	}
+	return out
+}
